@@ -7,6 +7,7 @@ mod registry;
 mod refwalk;
 mod runner;
 mod srcgen;
+mod symgen;
 mod tsgen;
 mod world;
 
@@ -52,6 +53,34 @@ fn main() {
     }
     return;
   }
+  if args[0] == "symrec" {
+    let text = std::fs::read_to_string(&args[1]).unwrap();
+    let case: props::c16::Case = serde_json::from_str(&text).unwrap();
+    let prog = symgen::build(&case.prog);
+    for (p, t) in &prog.files {
+      println!("--- {p}\n{t}");
+    }
+    println!("{:#?}", prog.rec);
+    return;
+  }
+  if args[0] == "c16files" {
+    // every file of the directory is served under file:/// and is a root
+    let mut files = Vec::new();
+    for e in std::fs::read_dir(&args[1]).unwrap() {
+      let p = e.unwrap().path();
+      let name = p.file_name().unwrap().to_string_lossy().to_string();
+      files.push((format!("/{name}"), std::fs::read_to_string(&p).unwrap()));
+    }
+    files.sort();
+    let graph = props::c16::graph_of(&files);
+    let mut o = runner::Outcome::default();
+    let r = props::c16::check_graph(&graph, &mut o);
+    println!("{r:?}");
+    for v in &o.violations {
+      println!("{}: {}", v.sig, v.msg);
+    }
+    return;
+  }
   if args[0] == "c12rec" {
     let text = std::fs::read_to_string(&args[1]).unwrap();
     let case: props::c12::Case = serde_json::from_str(&text).unwrap();
@@ -77,6 +106,7 @@ fn main() {
     "C15" => runner::dispatch(props::c15::spec(), &args),
     "C19" => runner::dispatch(props::c19::spec(), &args),
     "C18" => runner::dispatch(props::c18::spec(), &args),
+    "C16" => runner::dispatch(props::c16::spec(), &args),
     "C17" => runner::dispatch(props::c17::spec(), &args),
     "C20" => runner::dispatch(props::c20::spec(), &args),
     other => {
